@@ -1327,9 +1327,14 @@ mod unix {
                 ));
             }
 
-            // Set size
+            // Grow the object to the requested size if it is smaller (a new object
+            // has size 0); an existing one is never cut under the processes that
+            // have it mapped
             let size_off_t = off_t::try_from(size).unwrap_or(off_t::MAX);
-            if unsafe { ftruncate(fd, size_off_t) } == -1 {
+            let mut stat: libc::stat = unsafe { std::mem::zeroed() };
+            if unsafe { libc::fstat(fd, &raw mut stat) } == -1
+                || (stat.st_size < size_off_t && unsafe { ftruncate(fd, size_off_t) } == -1)
+            {
                 unsafe { close(fd) };
                 return Err(StorageError::SharedMemory(
                     "Failed to set shared memory size".to_string(),
